@@ -4,7 +4,7 @@ use shared::triple::Triple;
 use rayon::prelude::*;
 use crate::reasoning::materialisation::replace_variables_with_bound_values;
 use crate::reasoning::Reasoner;
-use crate::reasoning::rules::matches_rule_pattern;
+use crate::reasoning::rules::{join_rule, matches_rule_pattern};
 
 impl Reasoner {
 
@@ -152,7 +152,24 @@ impl Reasoner {
                                     }
                                 }
 
-                                _ => {}
+                                _ => {
+                                    // Three or more premises: the delta triple in every
+                                    // premise position, the others over all facts
+                                    let single: HashSet<Triple> =
+                                        std::iter::once(triple1.clone()).collect();
+                                    for binding in join_rule(rule, &all_facts_arc, &single) {
+                                        for conclusion in &rule.conclusion {
+                                            let inferred = replace_variables_with_bound_values(
+                                                conclusion,
+                                                &binding,
+                                                &mut dict.clone(),
+                                            );
+                                            if !all_facts_arc.contains(&inferred) {
+                                                local_set.insert(inferred);
+                                            }
+                                        }
+                                    }
+                                }
                             }
                         }
                         local_set
